@@ -15,11 +15,21 @@ pub struct MgrEngine;
 /// Named causal patterns (for known findings).
 pub fn classify(clause: &str, detail: &str, _trace: &[String]) -> Option<&'static str> {
     match clause {
+        "panic" if detail.contains("should have a path available") => Some("C06/worker-panic/lookup-returns-only-expired-paths"),
         "C06/issue-fifo-exceeds" => Some("C06/issue-fifo-unbounded"),
         "C06/issue-cache-exceeds" => Some("C06/issue-cache-exceeds-after-stale-fifo-entry"),
         "C06/expired-handout" => {
-            if detail.contains("[no maintenance since expiry]") {
-                Some("C06/expired-handout/no-maintenance-between-expiry-and-handout")
+            if detail.contains("[caller waited across the expiry") {
+                Some("C06/expired-handout/caller-waited-across-expiry")
+            } else if detail.contains("[no worker step since expiry]") {
+                Some("C06/expired-handout/no-worker-step-since-expiry")
+            } else {
+                None
+            }
+        }
+        "C06/left-without-path" => {
+            if detail.contains("[last lookup failed: next maintenance is scheduled by the back-off") {
+                Some("C06/left-without-path/active-path-expires-during-back-off")
             } else {
                 None
             }
@@ -27,14 +37,14 @@ pub fn classify(clause: &str, detail: &str, _trace: &[String]) -> Option<&'stati
         "C07/no-switch" => {
             if detail.contains("[penalty below swap threshold]") {
                 Some("C07/no-switch/penalty-below-swap-threshold")
-            } else if detail.contains("[lookup outstanding since before the report]") {
+            } else if detail.contains("[report arrived during an outstanding lookup]") {
                 Some("C07/report-during-outstanding-lookup")
             } else {
                 None
             }
         }
         "C07/fresh-penalised-path-used" => {
-            if detail.contains("[lookup outstanding since before the report]") {
+            if detail.contains("[report arrived during an outstanding lookup]") {
                 Some("C07/report-during-outstanding-lookup")
             } else {
                 None
@@ -47,7 +57,7 @@ pub fn classify(clause: &str, detail: &str, _trace: &[String]) -> Option<&'stati
 fn run_history(prop: &str, ctx: &mut RunCtx) -> RunResult {
     let ch = std::mem::replace(&mut ctx.ch, simcore::Choices::replay(Vec::new()));
     let trace = std::mem::take(&mut ctx.trace);
-    let sim = Sim::new(ch, trace, (0, 1), false);
+    let sim = Sim::new(ch, trace, (0, 1), std::env::var("VERIF_LOG_SCHED").is_ok());
     let open = ctx.open_list();
     let r = std::panic::catch_unwind(std::panic::AssertUnwindSafe(|| {
         let mut h = Hist::new(prop, sim.clone());
@@ -95,11 +105,11 @@ const STEPS: u64 = 2000;
 fn drive(h: &mut Hist) -> RunResult2 {
     let sim = h.sim.clone();
     let n_ops = 10 + sim.idx(50);
-    // op weights per property: [send, try, advance, complete, plan, report, stop, prefetch, local]
-    let w: [u64; 9] = match h.prop {
-        "C05" => [4, 4, 4, 5, 2, 2, 1, 1, 1],
-        "C06" => [3, 4, 6, 5, 2, 4, 1, 1, 0],
-        _ => [2, 4, 5, 4, 1, 7, 0, 0, 0],
+    // op weights per property: [send, try, advance, complete, plan, report, stop, prefetch, local, gc]
+    let w: [u64; 10] = match h.prop {
+        "C05" => [4, 4, 4, 5, 2, 2, 1, 1, 1, 1],
+        "C06" => [3, 4, 6, 5, 2, 4, 1, 1, 0, 1],
+        _ => [2, 4, 5, 4, 1, 7, 0, 0, 0, 0],
     };
     let total: u64 = w.iter().sum();
     for _ in 0..n_ops {
@@ -131,6 +141,7 @@ fn drive(h: &mut Hist) -> RunResult2 {
             }
             6 => h.op_stop(pair),
             7 => h.op_prefetch(pair),
+            9 => h.op_gc(),
             _ => {
                 let p = (pair.0, pair.0);
                 h.op_send(p)
@@ -157,8 +168,8 @@ impl Engine for MgrEngine {
     }
     fn budget(&self, _prop: &str, tier: Tier) -> Budget {
         match tier {
-            Tier::Quick => Budget { runs: 20_000, wall_cap_s: 150 },
-            Tier::Thorough => Budget { runs: 1_500_000, wall_cap_s: 1500 },
+            Tier::Quick => Budget { runs: 150_000, wall_cap_s: 150 },
+            Tier::Thorough => Budget { runs: 6_000_000, wall_cap_s: 1500 },
         }
     }
     fn classifier(&self) -> fn(&str, &str, &[String]) -> Option<&'static str> {
@@ -199,5 +210,6 @@ impl Engine for MgrEngine {
 }
 
 fn main() {
+    scion_sdk_utils::verif::set_simulated_process(true);
     simcore::runner::main_for(&MgrEngine);
 }
